@@ -213,7 +213,13 @@ def run_step(cid, step, tier, replay=None, budget_override=None, compile_only=Fa
                 res = json.load(f)
         except Exception:
             res = None
-    return {"name": name, "rc": rc, "res": res, "log": log, "wall": wall, "step": step}
+    race = False
+    if step.get("race") and not compile_only:
+        try:
+            race = "WARNING: DATA RACE" in open(log, errors="replace").read()
+        except Exception:
+            race = False
+    return {"name": name, "rc": rc, "res": res, "log": log, "wall": wall, "step": step, "race": race}
 
 
 def tail(path, n=40):
@@ -385,6 +391,19 @@ def main():
             continue
         lines.append("VIOLATION property=%s replay=%s" % (cid, path))
         print("  [%s] %s\n  %s" % (r["name"], v["key"][:300], v["desc"][:1500].replace("\n", "\n  ")))
+    # auxiliary free-running -race steps: a race report of the Go race detector is a violation (the detector has no
+    # false positives; the harness bodies themselves are race-free by construction)
+    for r in results:
+        if r.get("race"):
+            n += 1
+            path = os.path.join(rdir, "%d.race.log" % n)
+            if not replay:
+                os.makedirs(rdir, exist_ok=True)
+                shutil.copy(r["log"], path)
+            lines.append("VIOLATION property=%s replay=%s" % (cid, path))
+            txt = open(r["log"], errors="replace").read()
+            i = txt.find("WARNING: DATA RACE")
+            print("  [%s] data race reported by the race detector:\n%s" % (r["name"], txt[i:i + 2500]))
     for r in crash_viol:
         n += 1
         path = os.path.join(rdir, "%d.crash.log" % n)
